@@ -273,4 +273,6 @@ MUTANTS = [{'name': 'seeded-C37-a', 'patch': 'C37-a/patch.diff', 'expect': ('R37
 
 
 # behaviour-preserving pack (thorough tier)
-NEUTRAL = [{'name': 'event fields reordered', 'file': 'src/index/updater/rune_updater.rs', 'old': '        sender.blocking_send(Event::RuneBurned {\n          block_height: self.height,\n          txid,\n', 'new': '        sender.blocking_send(Event::RuneBurned {\n          txid,\n          block_height: self.height,\n'}]
+NEUTRAL = [
+  {'name': 'inscription number: arms swapped under !cursed', 'file': 'src/index/updater/inscription_updater.rs', 'old': '        let inscription_number = if cursed {\n          let number: i32 = self.cursed_inscription_count.try_into().unwrap();\n          self.cursed_inscription_count += 1;\n          -(number + 1)\n        } else {\n          let number: i32 = self.blessed_inscription_count.try_into().unwrap();\n          self.blessed_inscription_count += 1;\n          number\n        };', 'new': '        let inscription_number = if !cursed {\n          let number: i32 = self.blessed_inscription_count.try_into().unwrap();\n          self.blessed_inscription_count += 1;\n          number\n        } else {\n          let number: i32 = self.cursed_inscription_count.try_into().unwrap();\n          self.cursed_inscription_count += 1;\n          -(number + 1)\n        };'},
+{'name': 'event fields reordered', 'file': 'src/index/updater/rune_updater.rs', 'old': '        sender.blocking_send(Event::RuneBurned {\n          block_height: self.height,\n          txid,\n', 'new': '        sender.blocking_send(Event::RuneBurned {\n          txid,\n          block_height: self.height,\n'}]
